@@ -45,6 +45,10 @@ def history_strategy(opts):
         ents = G.entries(cur)
         root, style = draw(st.sampled_from(ents[-2:] if len(ents) > 1 else ents))
         steps.append(["eval", root, style])
+        # a second entry point early on: its paths stay untouched by the later evaluations of the first one
+        if len(ents) > 1 and draw(st.integers(0, 2)):
+            r2, s2 = draw(st.sampled_from(ents))
+            steps.append(["eval", r2, s2])
         for _ in range(draw(st.integers(1, 5))):
             c = draw(st.sampled_from(["edit", "edit", "eval", "restart", "setpath", "revert", "edit_other", "edit_other"] if persistent else ["edit", "edit", "eval", "setpath", "revert"]))
             if c == "edit":
